@@ -118,6 +118,8 @@ def run_family(ctx, W, out, nsched, terms):
                     if c in first_final and first_final[c] != st:
                         ctx.fail(dict(case, component=c), 'a component changed from one final state (%s) to another (%s)' % (first_final[c], st), [])
                     first_final.setdefault(c, st)
+        for (ev, what) in SC.stage_state_violations(W, trace)[:1]:
+            ctx.fail(dict(case, at=ev), what, [])
         last = trace[-1][2]
         stages_run = last['cur'] + 1
         # how run() ended for each stage (a stage may also end inside the Start event: nothing left to run)
@@ -191,6 +193,8 @@ def restart_family(ctx, W, out, start_at, nsched):
                     first_final.setdefault(c, st)
                 if W[c]['stage'] < start_at and post['comps'][c][2] > 0:
                     ctx.fail(dict(case, component=c), 'a component of a skipped stage was launched', [])
+        for (ev, what) in SC.stage_state_violations(W, trace)[:1]:
+            ctx.fail(dict(case, at=ev), what, [])
         for (c, p, what, ev) in SC.launch_violations(W, trace):
             if W[p]['stage'] >= start_at:
                 ctx.fail(dict(case, component=c, producer=p, at=ev), what, [])
